@@ -4,6 +4,8 @@
 (* rs is one of                                                                         *)
 (*   "none"          the process-global stream is consumed (and advances)               *)
 (*   "seedA","seedB" a fresh stream determined by the integer seed, read from its start *)
+(*                   (the driver concretises seedA as the integer 0, seedB as a positive *)
+(*                   integer: 0 is a legal seed that is falsy in Python)                 *)
 (*   "gen1","gen2"   two numpy Generator objects, both created from the same seed C;     *)
 (*                   a draw consumes from the object and advances it                     *)
 (* The POSITION of a stream is the sequence of <<obj, n>> draws it has served so far     *)
